@@ -1373,3 +1373,21 @@ def m_chunks(eng, call, args):
     meth = call["norm_names"][0].split("::")[-1]
     # every chunk yielded by chunks_exact has exactly n elements
     return mk("iter", mk("chunks", v, args[1], meth), False, call["site"])
+
+
+@model("std::ops::Fn::call", "std::ops::FnMut::call_mut", "std::ops::FnOnce::call_once")
+def m_fn_call(eng, call, args):
+    """calling a closure / fn value through the Fn* traits: arguments arrive as one tuple"""
+    f = args[0]
+    tup = args[1] if len(args) > 1 else mk("unit")
+    if tup.op == "agg" and tup.args[0] == "tuple":
+        cargs = list(tup.args[1:])
+    elif tup.op == "unit":
+        cargs = []
+    else:
+        cargs = [tup]
+    fv = f
+    if fv.op in ("ref", "refv", "refo"):
+        fv = deref_value(eng, call["state"], fv)
+    r = eng.invoke_value(call, fv, cargs, tag="#call")
+    return r
